@@ -29,6 +29,7 @@ type Violation struct {
 	Msg      string          `json:"msg"`
 	Case     json.RawMessage `json:"case"` // enough to re-run the case: {"gen":..., "index":..., ...}
 	Detail   string          `json:"detail,omitempty"`
+	Exe      string          `json:"exe,omitempty"` // harness executable the case must be re-run with ("" = this one)
 }
 
 // Counters is what a worker reports.
@@ -183,6 +184,7 @@ type Options struct {
 	Budget   time.Duration // internal per-worker time budget (0 = none)
 	Horizon  time.Duration // hard wall-clock limit for a worker
 	Env      []string
+	Exe      string // worker executable ("" = this executable)
 }
 
 // Crash describes a worker that died.
@@ -205,6 +207,9 @@ func RunSharded(o Options) (*Counters, []Crash, error) {
 	self, err := os.Executable()
 	if err != nil {
 		return nil, nil, err
+	}
+	if o.Exe != "" {
+		self = o.Exe
 	}
 	tmp, err := os.MkdirTemp("", "verif-"+o.Property+"-")
 	if err != nil {
@@ -249,6 +254,9 @@ func RunSharded(o Options) (*Counters, []Crash, error) {
 			defer mu.Unlock()
 			var c Counters
 			if werr == nil && json.Unmarshal(stdout.Bytes(), &c) == nil {
+				for vi := range c.Violations {
+					c.Violations[vi].Exe = o.Exe
+				}
 				total.Merge(&c)
 				if !c.Exhaustive {
 					total.Exhaustive = false
@@ -277,8 +285,11 @@ func RunSharded(o Options) (*Counters, []Crash, error) {
 
 // RerunCase runs a single case index in a fresh worker n times and returns the
 // stderr tails and whether every run failed (crashed or reported a violation).
-func RerunCase(property, tier string, idx int64, n int, horizon time.Duration, env []string) (failures int, lastStderr string, lastCounters *Counters) {
+func RerunCase(exe, property, tier string, idx int64, n int, horizon time.Duration, env []string) (failures int, lastStderr string, lastCounters *Counters) {
 	self, _ := os.Executable()
+	if exe != "" {
+		self = exe
+	}
 	for k := 0; k < n; k++ {
 		cmd := exec.Command(self, "worker", property, tier, "0", "1", strconv.FormatInt(idx, 10), "", "0")
 		cmd.Env = append(os.Environ(), "GOMAXPROCS=2", "VERIF_WORKER=1")
